@@ -6,7 +6,7 @@ W="$1"; shift
 N=$(basename "$W")
 D=/root/scratch/vs-$N
 rm -rf "$D"; mkdir -p "$D"
-rsync -a --exclude .git --exclude seeded --exclude .cache --exclude evidence /verif/ "$D"/
+rsync -a --exclude .git --exclude seeded --exclude .cache --exclude evidence --exclude ".work/e2e_*" /verif/ "$D"/
 sed -i "s#/repo/#$W/#" "$D"/harness/rt/Cargo.toml "$D"/harness/e2e/Cargo.toml
 mkdir -p "$D/evidence"
 cd "$D"
